@@ -168,6 +168,15 @@ func (t *Type) UnmarshalJSON(buf []byte) error {
 				if err != nil {
 					return err
 				}
+				declared := make(map[string]struct{}, len(atys))
+				for k := range atys {
+					declared[NormalizeString(k)] = struct{}{}
+				}
+				for _, k := range optionals {
+					if _, ok := declared[NormalizeString(k)]; !ok {
+						return fmt.Errorf("optional attribute %q is not declared", k)
+					}
+				}
 				*t = ObjectWithOptionalAttrs(atys, optionals)
 			} else {
 				*t = Object(atys)
